@@ -20,6 +20,7 @@ from pathlib import Path
 ROOT = Path(__file__).resolve().parent.parent
 SEEDED = ROOT / "seeded"
 SCRATCH = Path("/tmp/seedrun")
+SNAP = SCRATCH / "verif_snapshot"     # the checks run from a snapshot of /verif, so /verif can be edited meanwhile
 
 
 def one(pid, name, tier, checks):
@@ -65,11 +66,11 @@ def one(pid, name, tier, checks):
         env = dict(os.environ, VERIF_REPO=str(wt), VERIF_OUT=str(out))
         for c in checks:
             t0 = time.time()
-            p = subprocess.run([str(ROOT / "check"), c, tier], capture_output=True, text=True, env=env, cwd=str(ROOT))
+            p = subprocess.run([str(SNAP / "check"), c, tier], capture_output=True, text=True, env=env, cwd=str(SNAP))
             viol = [ln for ln in p.stdout.splitlines() if ln.startswith("VIOLATION")]
             sigs = [ln.strip()[:300] for ln in p.stdout.splitlines() if ln.startswith("  sig=")]
             res["checks"][c] = {"exit": p.returncode, "violations": len(viol), "caught": p.returncode == 1 and bool(viol),
-                                "first": sigs[:3], "wall_s": round(time.time() - t0), "tail": p.stdout.splitlines()[-1:] if p.returncode not in (0, 1) else []}
+                                "first": sigs[:3], "wall_s": round(time.time() - t0), "tail": [ln[:300] for ln in p.stdout.splitlines() if "MACHINERY" in ln or "Error" in ln or "rror:" in ln][:6] + p.stdout.splitlines()[-2:] if p.returncode not in (0, 1) else []}
     finally:
         subprocess.run(["git", "-C", "/repo", "worktree", "remove", "--force", str(wt)], capture_output=True)
         shutil.rmtree(wt, ignore_errors=True)
@@ -85,6 +86,14 @@ def main():
     ap.add_argument("--also", default="", help="comma separated further checks to run on every change")
     a = ap.parse_args()
     SCRATCH.mkdir(parents=True, exist_ok=True)
+    shutil.rmtree(SNAP, ignore_errors=True)
+    SNAP.mkdir(parents=True)
+    for name in ("check", "harness", "specs", "known_findings.json", ".build"):
+        src = ROOT / name
+        if src.is_dir():
+            shutil.copytree(src, SNAP / name, ignore=shutil.ignore_patterns("__pycache__"))
+        elif src.exists():
+            shutil.copy2(src, SNAP / name)
     work = []
     for pd in sorted(SEEDED.iterdir()):
         if not pd.is_dir():
